@@ -26,13 +26,13 @@ var evC12 = ev.New("C12", "document model (1-6 columns, 0-12 rows, or 1000-2500 
 
 var csvDelims = []byte{',', ',', ',', ';', '\t', '|', ' ', 'x', ',', ';', 0xFE, 0x80, 0xFF, 0x01, 0xEF, 0x00}
 
-var intCells = []string{"0", "1", "-1", "7", "+5", "007", "42", "-0", "123456789012", "9223372036854775807", "-9223372036854775808"}
+var intCells = []string{"0", "1", "-1", "7", "+5", "007", "010", "0012", "-08", "42", "-0", "123456789012", "9223372036854775807", "-9223372036854775808"}
 
 // look like ints but do not fit: the column must fall back to float (or be refused when declared int)
 var bigIntCells = []string{"9223372036854775808", "9999999999999999999", "-9223372036854775809", "18446744073709551616", "+9223372036854775808"}
 var floatCells = []string{"1.5", "-0.25", "1e5", "NaN", "inf", "", ".5", "5.", "-Inf", "0x1p-2", "1e-320", "99999999999999999999", "3"}
 var boolCells = []string{"true", "false", "t", "F", "TRUE", "True", "T", "f"}
-var strPieces = []string{"a", "b", "ab", " ", "  ", "\"", "\"\"", ",", ";", "\t", "|", "x", "\n", "\n\n", "ä", "€", "\xff", "\xfe", "\ufffd", "\x80", "0", "1", "-", "e", ".", "true", "'", "\\", "%", "q\"q", "a,b", "line1\nline2", "null", "NULL", "\ufeff", "N/A"}
+var strPieces = []string{"a", "b", "ab", " ", "  ", "\"", "\"\"", ",", ";", "\t", "|", "x", "\n", "\n\n", "ä", "€", "\xff", "\xfe", "\ufffd", "\x80", "0", "1", "-", "e", ".", "true", "'", "\\", "%", "q\"q", "a,b", "line1\nline2", "null", "NULL", "\ufeff", "N/A", "0x1F", "0b101", "0o17", "1_000"}
 
 func genCell(t *rapid.T, profile int) string {
 	switch profile {
